@@ -256,6 +256,16 @@ def load_tables():
     return _TABLES
 
 
+def load_resolutions():
+    """-> {data-field key: resolution} as snapshotted by tools/gen_pinned.py (regression pin)."""
+    import json  # pylint: disable=import-outside-toplevel
+    import os  # pylint: disable=import-outside-toplevel
+
+    with open(os.path.join(os.path.dirname(__file__), "pinned_tables.json"), encoding="utf-8") as fh:
+        raw = json.load(fh).get("res", {})
+    return {k: (v if isinstance(v, int) else float.fromhex(v)) for k, v in raw.items()}
+
+
 def _msm_len(level):
     sat = {1: 10, 2: 10, 3: 10, 4: 18, 5: 36, 6: 18, 7: 36}[level]
     cell = {1: 15, 2: 27, 3: 42, 4: 48, 5: 63, 6: 65, 7: 80}[level]
